@@ -4,6 +4,7 @@ C05 strong guarantee at the end position, C06 basic guarantee, C10 in-place when
 -/
 import SvModel.Properties.Core
 import SvModel.Proofs.InsertOps
+import SvModel.Proofs.InsertN
 
 namespace SvModel
 open Gen
@@ -71,6 +72,96 @@ theorem insert_alias (cfg : Cfg) (c pos i : Nat) (w w' : World α) (r : Nat) (xs
 /-- non-vacuity: aliasing insert into the full inline container [1, 2] at position 1 of element 0 gives [1, 1, 2] -/
 example : (match emplaceAt Ex.cfgT 0 1 (.copyOf 0 0) false Ex.w0 with
            | .ok r w' => r == 1 && (w'.mem (w'.hdr 0).data).take 3 == [.obj (.val 1), .obj (.val 1), .obj (.val 2)]
+           | .thrown _ _ => false) = true := by decide +kernel
+end C11
+
+theorem external_ext (vs : List α) : External (vs.map (Src.ext (α := α))) :=
+  fun s hs => by obtain ⟨a, _, rfl⟩ := List.mem_map.mp hs; rfl
+
+theorem map_srcVal_ext (w : World α) (vs : List α) : (vs.map Src.ext).map (srcVal w) = vs.map Val.val := by
+  simp [srcVal, Function.comp_def]
+
+namespace C01
+/-- insert (pos, n, x): n copies of x before pos; returns pos -/
+theorem insert_n_refines (cfg : Cfg) (c pos n : Nat) (s : Src α) (w w' : World α) (r : Nat) (xs : List (Val α))
+    (hp : Pre cfg w c) (ha : ArgOK cfg w c s) (hpol : StrongPolicy cfg) (hpos : pos ≤ (w.hdr c).size) (hx : Holds w c xs)
+    (hr : insertCopies cfg c pos n s w = .ok r w') :
+    Holds w' c (L0.insertN xs pos n (srcVal w s)).1 ∧ r = (L0.insertN xs pos n (srcVal w s)).2 := by
+  have h := sat_of_ok (insertCopies_sat cfg c pos n s w hp.vec hp.led hp.nmax hpos ha hpol) hr
+  exact ⟨h.2.1.holds xs hx, h.1⟩
+
+/-- insert (pos, first, last) over a non-empty multi-pass range of outside values -/
+theorem insert_range_refines (cfg : Cfg) (c pos : Nat) (vs : List α) (w w' : World α) (r : Nat) (xs : List (Val α))
+    (hp : Pre cfg w c) (hpol : StrongPolicy cfg) (hpos : pos ≤ (w.hdr c).size) (hne : vs ≠ []) (hx : Holds w c xs)
+    (hr : insertRangeFwd cfg c pos (vs.map Src.ext) w = .ok r w') :
+    Holds w' c (L0.insertRange xs pos (vs.map Val.val)).1 ∧ r = (L0.insertRange xs pos (vs.map Val.val)).2 := by
+  have hlen : 0 < (vs.map (Src.ext (α := α))).length := by
+    cases vs with
+    | nil => exact absurd rfl hne
+    | cons _ _ => simp
+  have h := sat_of_ok (insertRangeFwd_sat cfg c pos _ w hp.vec hp.led hp.nmax hpos hlen (external_ext vs) hpol) hr
+  have := h.2.1.holds xs hx
+  rw [map_srcVal_ext] at this
+  exact ⟨this, h.1⟩
+end C01
+
+namespace C06
+theorem insert_n_basic (cfg : Cfg) (c pos n : Nat) (s : Src α) (w w' : World α) (e : Exc)
+    (hp : Pre cfg w c) (ha : ArgOK cfg w c s) (hpol : StrongPolicy cfg) (hpos : pos ≤ (w.hdr c).size)
+    (hr : insertCopies cfg c pos n s w = .thrown e w') :
+    Basic cfg w w' c ∧ (w'.hdr c).data = (w.hdr c).data ∧ (w'.hdr c).cap = (w.hdr c).cap ∧ w'.live = w.live :=
+  sat_of_thrown (insertCopies_sat cfg c pos n s w hp.vec hp.led hp.nmax hpos ha hpol) hr
+
+theorem insert_range_basic (cfg : Cfg) (c pos : Nat) (vs : List α) (w w' : World α) (e : Exc)
+    (hp : Pre cfg w c) (hpol : StrongPolicy cfg) (hpos : pos ≤ (w.hdr c).size) (hne : vs ≠ [])
+    (hr : insertRangeFwd cfg c pos (vs.map Src.ext) w = .thrown e w') :
+    Basic cfg w w' c ∧ (w'.hdr c).data = (w.hdr c).data ∧ (w'.hdr c).cap = (w.hdr c).cap ∧ w'.live = w.live := by
+  have hlen : 0 < (vs.map (Src.ext (α := α))).length := by
+    cases vs with
+    | nil => exact absurd rfl hne
+    | cons _ _ => simp
+  exact sat_of_thrown (insertRangeFwd_sat cfg c pos _ w hp.vec hp.led hp.nmax hpos hlen (external_ext vs) hpol) hr
+end C06
+
+namespace C10
+/-- insert (pos, n, x) with room for n more elements keeps the buffer -/
+theorem insert_n_in_place (cfg : Cfg) (c pos n : Nat) (s : Src α) (w w' : World α) (r : Nat)
+    (hp : Pre cfg w c) (ha : ArgOK cfg w c s) (hpol : StrongPolicy cfg) (hpos : pos ≤ (w.hdr c).size)
+    (hroom : n ≤ (w.hdr c).cap - (w.hdr c).size) (hr : insertCopies cfg c pos n s w = .ok r w') :
+    (w'.hdr c).data = (w.hdr c).data ∧ (w'.hdr c).cap = (w.hdr c).cap ∧ w'.live = w.live ∧ w'.next = w.next :=
+  (sat_of_ok (insertCopies_sat cfg c pos n s w hp.vec hp.led hp.nmax hpos ha hpol) hr).2.2 hroom
+
+theorem insert_range_in_place (cfg : Cfg) (c pos : Nat) (vs : List α) (w w' : World α) (r : Nat)
+    (hp : Pre cfg w c) (hpol : StrongPolicy cfg) (hpos : pos ≤ (w.hdr c).size) (hne : vs ≠ [])
+    (hroom : vs.length ≤ (w.hdr c).cap - (w.hdr c).size) (hr : insertRangeFwd cfg c pos (vs.map Src.ext) w = .ok r w') :
+    (w'.hdr c).data = (w.hdr c).data ∧ (w'.hdr c).cap = (w.hdr c).cap ∧ w'.live = w.live ∧ w'.next = w.next := by
+  have hlen : 0 < (vs.map (Src.ext (α := α))).length := by
+    cases vs with
+    | nil => exact absurd rfl hne
+    | cons _ _ => simp
+  exact (sat_of_ok (insertRangeFwd_sat cfg c pos _ w hp.vec hp.led hp.nmax hpos hlen (external_ext vs) hpol) hr).2.2 (by simpa using hroom)
+end C10
+
+namespace C11
+/-- insert (pos, n, v[i]): n copies of the value v[i] had before the call, wherever i lies relative to pos -/
+theorem insert_n_alias (cfg : Cfg) (c pos n i : Nat) (w w' : World α) (r : Nat) (xs : List (Val α))
+    (hp : Pre cfg w c) (hpol : StrongPolicy cfg) (hx : Holds w c xs) (hi : i < xs.length) (hpos : pos ≤ (w.hdr c).size)
+    (hr : insertCopies cfg c pos n (.copyOf (w.hdr c).data i) w = .ok r w') :
+    Holds w' c (L0.insertN xs pos n xs[i]).1 := by
+  have hslot := hx.2 i hi
+  have ha : ArgOK cfg w c (.copyOf (w.hdr c).data i) :=
+    ⟨rfl, fun b j hl => by simp [Src.loc] at hl; obtain ⟨h1, h2⟩ := hl; subst h1; subst h2; exact ⟨_, hslot⟩,
+     fun b j hl => by simp [Src.loc] at hl; obtain ⟨h1, h2⟩ := hl; subst h1; subst h2; exact ⟨rfl, by rw [← hx.1]; exact hi⟩⟩
+  have h := (C01.insert_n_refines cfg c pos n _ w w' r xs hp ha hpol hpos hx hr).1
+  rw [srcVal_copyOf w _ _ _ hslot] at h
+  exact h
+
+/-- non-vacuity: on [1, 2] with capacity grown to 8: insert (0, 3, v[1]) in place gives [2, 2, 2, 1, 2] (tail ≥ … branch
+    and the temporary are exercised by the kernel's evaluation of the model) -/
+example : (match requestCapacity Ex.cfgT 0 8 Ex.w0 with
+           | .ok _ w1 => (match insertCopies Ex.cfgT 0 0 3 (.copyOf (w1.hdr 0).data 1) w1 with
+              | .ok r w' => r == 0 && (w'.mem (w'.hdr 0).data).take 5 == [.obj (.val 2), .obj (.val 2), .obj (.val 2), .obj (.val 1), .obj (.val 2)]
+              | .thrown _ _ => false)
            | .thrown _ _ => false) = true := by decide +kernel
 end C11
 
